@@ -1078,7 +1078,12 @@ def sdict_pop(E, d, args, node):
             return default
         raise RaiseSig('KeyError', node, str(key))
     if has_default:
-        return E.ite(p, v, default)
+        mergeable = all(isinstance(x, (Z, X, int, float, bool)) for x in (v, default)) or \
+            (isinstance(v, Z) and v.ty == STR and isinstance(default, str))
+        if mergeable:
+            return E.ite(p, v, default)
+        # values that cannot be merged into one term (opaque objects, lists, tuples, strings): one path each
+        return v if E.branch(Z(p, BOOL), 'pop-present') else default
     if not E.branch(Z(p, BOOL), 'pop-present'):
         raise RaiseSig('KeyError', node, str(key))
     return v
